@@ -103,7 +103,11 @@ def case_stats(case):
     if rel(float(res.cost), 0.5 * float(pen @ pen)) > tol:
         vs.append(V("cost-differs-from-objective-at-optimised-parameters", cost=float(res.cost), reevaluated=0.5 * float(pen @ pen)))
     want_cost = 0.5 * float(ref["penalty"] @ ref["penalty"])
-    if rel(float(res.cost), want_cost) > 1e-7:
+    # the reference solves each linear problem by SVD / exhaustive support search; QR loses ~cond*eps, SciPy's
+    # normal-equation NNLS ~cond^2*eps: near-collinear optima (cond > 1e6) are compared with a tolerance that grows with cond
+    nnls_used = any(g.get("residual_function") == "non_negative_least_squares" for g in spec["groups"].values())
+    cost_tol = 1e-7 * max(1.0, ref["cond"] / 1e5) * (max(1.0, ref["cond"] / 1e5) if nnls_used else 1.0)
+    if rel(float(res.cost), want_cost) > cost_tol:
         vs.append(V("cost-differs-from-independent-reference", cost=float(res.cost), reference=want_cost))
     if dof > 0:
         if rel(float(res.reduced_chi_square), float(res.chi_square) / dof) > 1e-12:
